@@ -388,15 +388,19 @@ pub fn check(prop: &str, tier: &str) -> i32 {
     // long programs: the end-of-program collapse has to bring ANY final stack down to one object, however many items
     // the body left. Steady strategies (always the same opcode) and the empty fuzzer input, opcode counts around 10 000,
     // 20 000 and above; untraced, each on its own 256 MiB thread, judged from the bytes by the reference machine.
-    if prop == "C01" {
+    if matches!(prop, "C01" | "C04" | "C05" | "C06") {
         use rayon::prelude::*;
         let noop = |_: &RunCtx| -> Vec<Finding> { vec![] };
-        let ts: Vec<usize> = if tier == "quick" { vec![10_003, 20_005, 30_000] } else { vec![9_999, 10_001, 10_002, 10_003, 20_001, 20_002, 20_003, 20_005, 30_000, 50_000, 65_537] };
+        let ts: Vec<usize> = if tier == "quick" && prop != "C01" { vec![20_005] } else if tier == "quick" { vec![10_003, 20_005, 30_000] } else { vec![9_999, 10_001, 10_002, 10_003, 20_001, 20_002, 20_003, 20_005, 30_000, 50_000, 65_537] };
         let mut jobs: Vec<(u8, usize, Vec<u8>, Vec<u8>, String)> = vec![];
         for p in (0..=5u8).rev() {
             let ex = Explorer { base_cfg: Cfg::new(p).flags(true, true), opts: Opts::default(), monitor: &noop, xval_full: Default::default(), choice_discovery: Default::default() };
             for &t in &ts {
                 jobs.push((p, t, vec![], vec![], "empty fuzzer input".to_string()));
+                if p >= 4 {
+                    // first draw true: the same program inside a FRAME
+                    jobs.push((p, t, vec![0x01], vec![], "framed, otherwise exhausted fuzzer input".to_string()));
+                }
             }
             for (first, repo, label) in crate::total::STRATEGIES {
                 let Some((first, repo)) = crate::total::strategy_ops(p, first, repo) else { continue };
@@ -404,6 +408,12 @@ pub fn check(prop: &str, tier: &str) -> i32 {
                     Ok((prefix, unit)) => {
                         for &t in &ts {
                             jobs.push((p, t, prefix.clone(), unit.clone(), label.to_string()));
+                            if p >= 4 && !prefix.is_empty() {
+                                // the FRAME coin is the first draw (one byte, lowest bit): the same strategy with the other answer
+                                let mut q = prefix.clone();
+                                q[0] ^= 1;
+                                jobs.push((p, t, q, unit.clone(), format!("{label} [FRAME coin flipped]")));
+                            }
                         }
                     }
                     Err(e) => rep.set(&format!("skipped_long_program_P{p}_{}", lexer::name(repo)), json!(e)),
